@@ -5,12 +5,13 @@ from . import lib, domlib as D, dom13 as S
 TRUSTED = ['Coq 8.16.1 kernel + VM', 'Spec/DomL1.v: hand transcription of DOM Level 1 Core (readings R1-R6 in its header), extracted (ExtrOcamlBasic) into ocaml/specdomains/dom/dom.ml',
            'Model/Store.v + Model/DomOps.v: hand-written model of the repaired code, tied by the dom correspondence (campaign of C12/C14, re-used here)',
            'harness/src/domains/dom.rs (dump through the public DOM API, `+x` extension: owner document, qualified names)',
+           'Model/DomFacts.v (string facts of a call computed by the parser model: extracted, ocaml/domains/domfacts/domfacts.ml) is compared with the `digest` of the harness on hand-picked, generator and random strings (checks/dom13.py facts_tie)',
            'python: checks/dom13.py rebuilds the abstract state from the dump (canon), compares with the spec driver']
 
 def check(run):
     run.trusted = TRUSTED
     proved, _ = lib.proof_step(run, 'C13', ['-'])
-    okr, mok, sok = lib.build_binaries(run, model_areas=['dom'], spec_areas=['dom'])
+    okr, mok, sok = lib.build_binaries(run, model_areas=['dom', 'domfacts'], spec_areas=['dom'])
     if okr and sok.get('dom'):
         s = S.campaign(run)
         run.evaluations = s['ops']
@@ -44,6 +45,11 @@ def check(run):
                 g = D.shrink_mismatch(m)
                 p = run.write_replay('tie', dict(g, property='C13', what='model and implementation differ'))
                 run.tie_breaks.append('dom correspondence: model and implementation differ after %s (replay %s)' % (D.describe_failure(g), p))
+    # tie of Model/DomFacts.v (the string facts of the *_model_facts theorems, computed by the model of the parser)
+    # with the facts the harness computes with the real parser
+    if okr and mok.get('domfacts'):
+        ft = S.facts_tie(run)
+        run.extra['facts_tie'] = {'strings': ft['strings'], 'mismatches': len(ft['mismatches'])}
     return run.finish(level='proof',
         rule='calls executed on the implementation; for each, dom_step of the extracted Spec/DomL1.v is applied to the abstract state rebuilt from the previous dump and compared '
              '(result class, tree, attributes, data); failed calls: full dump before = after; distinct non-trivial = distinct (state, op) pairs whose result is not `na`',
